@@ -6,6 +6,8 @@ package main
 //	gosym replay /verif/replays/C12/1.json
 
 import (
+	"go/types"
+	"math"
 	"runtime/debug"
 	"runtime/pprof"
 	"bufio"
@@ -157,8 +159,17 @@ func loadHarness(prop, repo string) (*loaded, error) {
 			if !isHarness {
 				continue
 			}
-			// file-level stub directives
+			// file-level stub directives (comment groups that are not the doc of a Verif_ entry)
+			entryDocs := map[*ast.CommentGroup]bool{}
+			for _, decl := range file.Decls {
+				if fd, ok := decl.(*ast.FuncDecl); ok && fd.Doc != nil && strings.HasPrefix(fd.Name.Name, "Verif_") {
+					entryDocs[fd.Doc] = true
+				}
+			}
 			for _, cg := range file.Comments {
+				if entryDocs[cg] {
+					continue
+				}
 				for _, c := range cg.List {
 					if strings.HasPrefix(c.Text, "//verif:stub ") {
 						f := strings.Fields(strings.TrimPrefix(c.Text, "//verif:stub "))
@@ -189,6 +200,15 @@ func loadHarness(prop, repo string) (*loaded, error) {
 							}
 						} else if strings.HasPrefix(c.Text, "//verif:doc ") {
 							e.Doc += strings.TrimPrefix(c.Text, "//verif:doc ") + " "
+						} else if strings.HasPrefix(c.Text, "//verif:stub ") {
+							f := strings.Fields(strings.TrimPrefix(c.Text, "//verif:stub "))
+							if len(f) != 2 || sp.Func(f[1]) == nil {
+								return nil, fmt.Errorf("%s: bad entry stub directive %q", fd.Name.Name, c.Text)
+							}
+							if e.Stubs == nil {
+								e.Stubs = map[string]*ssa.Function{}
+							}
+							e.Stubs[f[0]] = sp.Func(f[1])
 						}
 					}
 				}
@@ -233,6 +253,8 @@ func parseEntryDirective(e *HarnessEntry, s string) error {
 			e.Covers = append(e.Covers, strings.Split(v, ",")...)
 		case "native":
 			e.Native = true
+		case "float":
+			e.Float = v
 		default:
 			return fmt.Errorf("unknown entry option %q", k)
 		}
@@ -308,23 +330,32 @@ func runCheck(prop, tier string, nWorkers int, solverName, only, repo string, bu
 		nWorkers: nWorkers, solverName: solverName, timeoutMs: 30000, covers: map[string]bool{}, nondetInfo: map[string]*NondetInfo{},
 		notes: map[string]bool{}, known: loadKnown(), knownHit: map[string]bool{}}
 	d.cond = sync.NewCond(&d.mu)
+	d.floatConsts = collectFloatConsts(ld)
 	deadline := t0.Add(time.Duration(budget) * time.Second)
 
-	var workers []*Worker
-	for i := 0; i < nWorkers; i++ {
-		w, err := d.newWorker(i)
-		if err != nil {
-			fmt.Fprintf(os.Stderr, "gosym: cannot start solver: %v\n", err)
-			return 2
-		}
-		workers = append(workers, w)
-	}
+	var workers []*Worker     // workers of the entry being explored
+	var allWorkers []*Worker  // every worker created (for statistics)
+	var wmu sync.Mutex
 	defer func() {
-		for _, w := range workers {
+		for _, w := range allWorkers {
 			w.solver.Close()
 		}
 	}()
 
+	// watchdog: when the budget is exhausted, kill the solver processes so that pending queries
+	// return (as inconclusive) instead of holding the check for their individual timeouts
+	go func() {
+		time.Sleep(time.Until(deadline) + 5*time.Second)
+		d.mu.Lock()
+		d.deadlineHit = true
+		d.stop = true
+		d.mu.Unlock()
+		wmu.Lock()
+		for _, w := range workers {
+			w.solver.Kill()
+		}
+		wmu.Unlock()
+	}()
 	ran := 0
 	missingCovers := []string{}
 	for _, e := range ld.entries {
@@ -337,6 +368,31 @@ func runCheck(prop, tier string, nWorkers int, solverName, only, repo string, bu
 		d.stack = [][]Decision{{}}
 		d.active = 0
 		d.stop = false
+		// fresh term tables and solver processes per entry (encoding options differ per entry)
+		wmu.Lock()
+		workers = nil
+		for i := 0; i < nWorkers; i++ {
+			w, err := d.newWorker(i)
+			if err != nil {
+				wmu.Unlock()
+				fmt.Fprintf(os.Stderr, "gosym: cannot start solver: %v\n", err)
+				return 2
+			}
+			w.tc.noEps = e.Float == "mono"
+			if len(e.Stubs) > 0 {
+				m := map[string]*ssa.Function{}
+				for k, v := range d.harnessStubs {
+					m[k] = v
+				}
+				for k, v := range e.Stubs {
+					m[k] = v
+				}
+				w.harnessStubs = m
+			}
+			workers = append(workers, w)
+			allWorkers = append(allWorkers, w)
+		}
+		wmu.Unlock()
 		var wg sync.WaitGroup
 		for _, w := range workers {
 			wg.Add(1)
@@ -352,11 +408,14 @@ func runCheck(prop, tier string, nWorkers int, solverName, only, repo string, bu
 				missingCovers = append(missingCovers, e.Name+":"+c)
 			}
 		}
+		for _, w := range workers {
+			w.solver.Close()
+		}
 		if d.deadlineHit || len(d.inconclusive) > 0 {
 			break
 		}
 	}
-	for _, w := range workers {
+	for _, w := range allWorkers {
 		d.queries += w.solver.queries
 		d.qSat += w.solver.sat
 		d.qUnsat += w.solver.unsat
@@ -369,6 +428,12 @@ func runCheck(prop, tier string, nWorkers int, solverName, only, repo string, bu
 	verdict := "held within bounds"
 	var unknownViol []*Violation
 	for _, v := range d.violations {
+		if !v.Confirmed {
+			// a solver model that does not reproduce under concrete re-execution is a fault of the
+			// (over-approximating) encoding or of a stub, never a finding (DESIGN 2.11)
+			d.inconclusive = append(d.inconclusive, "candidate counterexample did not reproduce concretely: "+v.Msg+fmt.Sprintf(" inputs=%v", v.Model))
+			continue
+		}
 		if d.isKnown(v) {
 			for _, k := range d.known {
 				if k.kind == "finding" && k.prop == prop && strings.Contains(v.Sig, k.sig) && !d.knownHit[k.sig] {
@@ -428,7 +493,7 @@ func runCheck(prop, tier string, nWorkers int, solverName, only, repo string, bu
 		discharged = 0
 	}
 	if evidence {
-		d.writeEvidence(workers, time.Since(t0), verdict, obligations, discharged, 0)
+		d.writeEvidence(allWorkers, time.Since(t0), verdict, obligations, discharged, 0)
 	}
 	fmt.Fprintf(os.Stderr, "gosym: %s %s: %s; paths=%d instr=%d assertions=%d (symbolic %d) queries=%d (unknown %d) solver=%.1fs load=%.1fs wall=%.1fs\n",
 		prop, tier, verdict, d.states, d.transitions, d.asserts, d.assertsSym, d.queries, d.qUnknown, d.solverTime.Seconds(), loadT.Seconds(), time.Since(t0).Seconds())
@@ -516,4 +581,46 @@ func runReplay(path, solverName, repo string) int {
 	}
 	fmt.Fprintln(os.Stderr, "entry not found:", rep.Entry)
 	return 2
+}
+
+// collectFloatConsts gathers the finite float constants of the packages under verification (and of
+// the harness): they are the anchors of the E2 float encoding (DESIGN 2.3).
+func collectFloatConsts(ld *loaded) []float64 {
+	pkgs := map[*ssa.Package]bool{}
+	for _, e := range ld.entries {
+		if e.Fn != nil && e.Fn.Pkg != nil {
+			pkgs[e.Fn.Pkg] = true
+		}
+	}
+	seen := map[float64]bool{}
+	var out []float64
+	visit := func(fn *ssa.Function) {
+		for _, b := range fn.Blocks {
+			for _, ins := range b.Instrs {
+				var buf [8]*ssa.Value
+				for _, op := range ins.Operands(buf[:0]) {
+					c, ok := (*op).(*ssa.Const)
+					if !ok || c.Value == nil {
+						continue
+					}
+					if bt, ok := c.Type().Underlying().(*types.Basic); ok && bt.Info()&types.IsFloat != 0 {
+						f := c.Float64()
+						if !math.IsNaN(f) && !math.IsInf(f, 0) && !seen[f] && len(out) < 64 {
+							seen[f] = true
+							out = append(out, f)
+						}
+					}
+				}
+			}
+		}
+	}
+	for fn := range ssautil.AllFunctions(ld.prog) {
+		if fn.Pkg != nil && pkgs[fn.Pkg] {
+			visit(fn)
+		} else if fn.Pkg == nil && fn.Origin() != nil && fn.Origin().Pkg != nil && pkgs[fn.Origin().Pkg] {
+			visit(fn)
+		}
+	}
+	sort.Float64s(out)
+	return out
 }
